@@ -256,9 +256,10 @@ fn main() {
     states::<BTreeSet<Id>, Option<Id>, (), Id, HashableHashMap<Id, Vec<Id>>>(&mut out, &mut r, 300 * k, true);
     states::<(bool, Id), Id, (u8, u8), Vec<Id>, Vec<Envelope<Id>>>(&mut out, &mut r, 300 * k, true);
     states::<Vec<Id>, (Id, Id), u8, u8, (BTreeSet<Id>, VecDeque<Id>)>(&mut out, &mut r, 300 * k, true);
-    // timer values that carry ids: `Timers::rewrite` clones, so those ids are NOT rewritten. The model follows the
-    // code (M only); the orbit oracle is not applied to this stream (see notes/C10.md).
-    states::<u8, u8, Id, u8, ()>(&mut out, &mut r, 100 * k, false);
+    // timer values that carry ids: `Timers::rewrite` clones, so those ids are NOT rewritten (known finding F12).
+    // The model follows the code (M agrees); the full-strength orbit oracle reports `timer-ids-not-rewritten`.
+    states::<u8, u8, Id, u8, ()>(&mut out, &mut r, 100 * k, true);
+    states::<(u8, Id), Id, (Id, u8), u8, Vec<Id>>(&mut out, &mut r, 100 * k, true);
     timer_id_witness(&mut out);
     out.finish();
 }
@@ -279,7 +280,9 @@ fn timer_id_witness(out: &mut Out) {
     };
     let rep = st.representative();
     let moved: Vec<usize> = rep.timers_set[1].iter().map(|i| usize::from(*i)).collect();
-    out.m(&format!("repr {} {} {}", <ActorModelState<GA<u8, u8, Id, u8>, ()> as U>::ty(), st.sx(), rep.sx()), "ok");
+    let ty = <ActorModelState<GA<u8, u8, Id, u8>, ()> as U>::ty();
+    out.m(&format!("repr {} {} {}", ty, st.sx(), rep.sx()), "ok");
+    out.o(&format!("o-orbit {} {} {}", ty, st.sx(), rep.sx()));
     if moved == vec![0] && rep.timers_set[0].iter().count() == 0 {
         out.stat("timer-id-witness:timer-moved-but-its-id-not-rewritten(as-modelled)");
     } else if moved == vec![1] {
